@@ -31,6 +31,7 @@ def check(c: Check):
     clause_e(c)
     if c.tier == 'thorough':
         clause_f(c)
+    clause_g(c)
 
 
 # ---------------------------------------------------------------- a
@@ -443,3 +444,40 @@ def clause_f(c: Check):
                                       'an instruction object (shared by all cases of a suite) writes its attribute %s '
                                       'in %s' % (t.attr, meth.name), '%s:%d' % (m.relpath, n.lineno))
     c.ok('C17-f', 'instruction-classes/immutable', '%d classes under impls.instructions' % n_cls)
+
+
+# ---------------------------------------------------------------- g
+LAYER_METHODS = ('resolve', 'value_of_any_dependency', 'primitive', 'validate_pre_sds_if_applicable',
+                 'validate_post_sds_if_applicable', 'structure', 'populate', 'make')
+SINGLE_USE = {
+    'exactly_lib.impls.types.string_transformer.impl.filter.line_nums.sources:_HandlerResolverForMultipleRangesWNegativeValues':
+        'created anew for every application of the transformer (C13-e judges the transformer itself)',
+}
+
+
+def clause_g(c: Check):
+    """EFF: the value layers (SDV.resolve, DDV.value_of_any_dependency, ADV.primitive, validators, makers) compute
+    their result without changing the object they are called on - the same parsed instruction / symbol value is
+    resolved for every reference and every case of a suite run, so state kept across calls makes a later result
+    depend on an earlier one (mutation summaries, rules/purity.py)"""
+    from .purity import Purity
+    ix = c.ix
+    pu = Purity(ix)
+    n = 0
+    for name in ix.all_module_names():
+        if not name.startswith(('exactly_lib.impls.types', 'exactly_lib.type_val_deps', 'exactly_lib.type_val_prims')):
+            continue
+        m = ix.module(name)
+        for k in m.all_classes:
+            if k.key in SINGLE_USE:
+                continue
+            for mname in LAYER_METHODS:
+                f = k.methods.get(mname)
+                if f is None:
+                    continue
+                n += 1
+                changed = pu.self_mutations(f)
+                c.expect(not changed, 'C17-g', 'layer-method-keeps-state/%s.%s' % (k.key, mname),
+                         '%s.%s changes %s of the object it is called on: a later resolution / application / case sees what '
+                         'an earlier one left behind' % (k.name, mname, ', '.join('self.' + a for a in changed)), f.loc())
+    c.floor('C17-g', 'value-layer methods analysed', n, 250)
